@@ -377,7 +377,7 @@ pub fn run(ctx: &mut Ctx) {
         }
     });
     // (b)
-    let cases = ctx.tier.pick(30_000u32, 600_000);
+    let cases = ctx.tier.pick(60_000u32, 600_000);
     let nthreads = ctx.threads as u32;
     ctx.parallel(|ti, _n, st| {
         let f = run_proptest(history_strategy(), cases / nthreads + 1, seed ^ 0xC05B ^ ((ti as u64) << 36), st, |h, st| {
